@@ -2,10 +2,12 @@
 
 spec/Validate.tla models the work-list algorithm over the Engine model with
 stored results; Init ranges over (perturbed cell, stored value) x output list
-x tolerance; TLC checks the report relation (ConsistentEmpty, PerturbedNamed,
-OnlyDependants, UnevaluableReported) on every behaviour and exports the final
-report.  Each case becomes a real .xlsx file whose stored results are patched
-accordingly; validate_calcs is run on it.  VERDICT: the returned dict
+x tolerance (None, 0, 2); the workbook calculates normally or iteratively
+(calculation.iterate, constant Iterate); TLC checks the report relation
+(ConsistentEmpty, PerturbedNamed, OnlyDependants, UnevaluableReported) on
+every behaviour and exports the final report.  Each case becomes a real .xlsx
+file whose stored results (and calculation mode) are patched accordingly;
+validate_calcs is run on it.  VERDICT: the returned dict
 satisfies the report relation of the statement.  BINDING: the mismatch
 entries equal the model's (difference = NOTE spec-drift).
 """
@@ -65,8 +67,43 @@ def perturb_values(fresh):
     return out
 
 
+NONE_TOL = -1            # Validate.tla: tolerance None (the default)
+ITERATE = (100, 0.001)   # calcPr iterateCount / iterateDelta of an iterative workbook
+
+
+def run_model(name, wb, outlists, tols, perturbs, broken, iterate, timeout=1800):
+    """TLC explores validate_calcs for every (perturbation, outputs, tol) choice;
+    returns (tlc result, list of exported final reports)"""
+    d = tlc.new_scratch('val')
+    mod = f'MC_{name}_val'
+    extra = '\n'.join([
+        'MCOutputLists == ' + W.tla_set(W.tla_seq(map(W.q, o)) for o in outlists),
+        'MCTols == ' + W.tla_set(map(str, tols)),
+        'MCPerturbs == ' + W.tla_set(f'<<{W.q(c)}, {W.tla_val(v)}>>' for c, v in perturbs),
+        'MCBroken == ' + W.tla_set(map(W.q, broken)),
+        'MCIterate == ' + ('TRUE' if iterate else 'FALSE'),
+    ])
+    with open(os.path.join(d, mod + '.tla'), 'w') as f:
+        f.write(W.tla_constants(wb, [1], 'Stored', mod, extends='Validate', extra=extra))
+    with open(os.path.join(d, 'v.cfg'), 'w') as f:
+        f.write(W.CONST_CFG + '  OutputLists <- MCOutputLists\n  Tols <- MCTols\n'
+                '  Perturbs <- MCPerturbs\n  Broken <- MCBroken\n  Iterate <- MCIterate\n'
+                'SPECIFICATION VSpec\n'
+                'INVARIANT ConsistentEmpty\nINVARIANT PerturbedNamed\n'
+                'INVARIANT OnlyDependants\nINVARIANT UnevaluableReported\n'
+                'INVARIANT Export\n')
+    res = tlc.run(mod, os.path.join(d, 'v.cfg'), spec_dir=d, workers=1,
+                  library=tlc.SPEC, timeout=timeout, heap='3g')
+    if not res.ok:
+        raise tlc.MachineryFailure(
+            f'Validate model {name} violates {res.violated}:\n'
+            + '\n'.join(l for l in res.stdout.splitlines()
+                        if not l.startswith('"'))[-3000:])
+    return res, res.json
+
+
 def job(arg):
-    name, seed, n_out, broken_sets = arg
+    name, seed, n_out, runs = arg
     rnd = random.Random(seed)
     wb = W.WORKBOOKS[name]
     n = W.nodes(wb)
@@ -78,15 +115,16 @@ def job(arg):
     rnd.shuffle(pairs)
     outlists += pairs[:n_out] + [list(forms)]
     perturbs = [(f, v) for f in forms for v in perturb_values(fresh[f])]
-    out = dict(name=name, tlc=[], violations=[], notes=[], cases=0, keys=0, drift=0,
-               sample=None, reports=0)
+    out = dict(name=name, run=repr(runs), tlc=[], violations=[], notes=[], cases=0, keys=0,
+               drift=0, sample=None, reports=0)
     workdir = tlc.new_scratch('c12')
-    for bi, broken in enumerate(broken_sets):
-        res, reports = engine.run_validate_model(name, wb, outlists, [0, 2], perturbs, broken)
-        out['tlc'].append(dict(run=f'Validate {name} broken={broken}', distinct=res.distinct,
+    for broken, iterate, tols, bi in runs:
+        res, reports = run_model(name, wb, outlists, tols, perturbs, broken, iterate)
+        out['tlc'].append(dict(run=f'Validate {name} broken={broken} iterate={iterate} tols={tols}',
+                               distinct=res.distinct,
                                generated=res.generated, depth=res.depth,
                                wall_s=round(res.wall, 2)))
-        expected = len(outlists) * 2 * (len(perturbs) + 1)
+        expected = len(outlists) * len(tols) * (len(perturbs) + 1)
         if len(reports) != expected:
             raise tlc.MachineryFailure(f'{len(reports)} reports exported, expected {expected}')
         for rep in reports:
@@ -101,16 +139,17 @@ def job(arg):
             results = {f: fresh[f] for f in forms}
             if perturbed:
                 results[p_cell] = W.py_val(p_val)
-            key = json.dumps([sorted(cells.items()), sorted(results.items(), key=str)],
+            key = json.dumps([sorted(cells.items()), sorted(results.items(), key=str), iterate],
                              default=str)
             path = os.path.join(workdir, f'v{abs(hash(key))}.xlsx')
             if not os.path.exists(path):
-                xl.write_xlsx_with_results(path, cells, results, arrays=arrays)
+                xl.write_xlsx_with_results(path, cells, results, arrays=arrays,
+                                           iterate=ITERATE if iterate else None)
             from pycel import ExcelCompiler
-            tol = rep['tol'] or None
+            tol = None if rep['tol'] == NONE_TOL else rep['tol']
             case = dict(workbook=name, cells=cells, stored=results, outputs=rep['outs'],
                         tolerance=tol, perturbed=[p_cell, W.py_val(p_val) if perturbed else None],
-                        broken=broken)
+                        broken=broken, iterate=iterate)
             try:
                 m = ExcelCompiler(path, plugins=('harness.plugin_fail',))
                 with contextlib.redirect_stdout(io.StringIO()):
@@ -140,7 +179,8 @@ def job(arg):
                 if isinstance(wc_, int) and isinstance(pv_, int):
                     diff = abs(int(wc_) - int(pv_))
                     # tolerance None means "relatively close" (1e-5) in close_enough()
-                    altered = diff > tol if tol else diff > 1e-5 * max(abs(int(wc_)), abs(int(pv_)))
+                    altered = (diff > tol if tol is not None
+                               else diff > 1e-5 * max(abs(int(wc_)), abs(int(pv_))))
                 else:
                     altered = True
                 if p_cell in reach and p_cell not in unevaluable and altered:
@@ -175,7 +215,7 @@ def job(arg):
                 out['drift'] += 1
                 out['notes'].append(f'spec-drift {name}: model report {model_m} excs {rep["excs"]} '
                                     f'vs real {real_m} excs {sorted(unevaluable)} for outs '
-                                    f'{rep["outs"]} p {rep["p"]} broken {broken}')
+                                    f'{rep["outs"]} p {rep["p"]} broken {broken} iterate {iterate}')
         out['reports'] += len(reports)
     out['violations'] = out['violations'][:6]
     return out
@@ -183,13 +223,26 @@ def job(arg):
 
 def run(tier, seed):
     v = Verdict(PID, tier, seed)
+    N, Z = NONE_TOL, 0
     if tier == 'quick':
-        jobs = [('chain', seed, 3, [[], ['B1']]), ('nested', seed, 3, [[], ['B2'], ['C1']]),
-                ('range', seed, 2, [[]]), ('cse', seed, 2, [[]]), ('big', seed, 2, [[], ['C1']]),
-                ('csef', seed, 2, [[]])]
+        plan = [('chain', 3, [([], False, [N, Z, 2]), (['B1'], False, [N, 2]),
+                              ([], True, [N, Z])]),
+                ('nested', 3, [([], False, [N, 2]), (['B2'], False, [N, 2]), (['C1'], False, [N, 2]),
+                               ([], True, [N]), (['B2'], True, [N])]),
+                ('range', 2, [([], False, [N, Z, 2]), ([], True, [N])]),
+                ('cse', 2, [([], False, [N, 2])]),
+                ('big', 2, [([], False, [N, Z, 2]), (['C1'], False, [N, 2]), ([], True, [Z])]),
+                ('csef', 2, [([], False, [N, 2]), ([], True, [N])])]
     else:
-        jobs = [(name, seed, 12, [[]] + [[f] for f in sorted(W.WORKBOOKS[name]['formulas'])])
-                for name in ('chain', 'nested', 'range', 'cse', 'grid', 'alias', 'trimex', 'big', 'csef')]
+        plan = []
+        for name in ('chain', 'nested', 'range', 'cse', 'grid', 'alias', 'trimex', 'big', 'csef'):
+            singles = [[f] for f in sorted(W.WORKBOOKS[name]['formulas'])]
+            plan.append((name, 12,
+                         [([], False, [N, Z, 2])] + [(b, False, [N, 2]) for b in singles] +
+                         [([], True, [N, Z, 2])] + [(b, True, [N]) for b in singles]))
+    # one job per TLC run: the runs of one workbook go to different workers
+    jobs = [(name, seed, n_out, [r + (k,)]) for name, n_out, runs in plan
+            for k, r in enumerate(runs)]
     results = parallel.run_jobs(job, jobs)
     for r in results:
         for t in r['tlc']:
@@ -197,7 +250,7 @@ def run(tier, seed):
             v.states += t['distinct']
             v.transitions += t['generated']
         v.evaluations += r['cases']
-        v.distinct.update((r['name'], i) for i in range(r['keys']))
+        v.distinct.update((r['name'], r['run'], i) for i in range(r['keys']))
         v.traces += r['reports']
         for n in r['notes']:
             v.note(n)
@@ -208,9 +261,11 @@ def run(tier, seed):
     v.extra.update(
         exhaustive=False,
         rule='one case = one (workbook, altered cell and stored value | none, output list, '
-             'tolerance, broken cells) behaviour of Validate.tla, realised as an .xlsx file with '
+             'tolerance, broken cells, calculation mode) behaviour of Validate.tla, realised as an .xlsx file with '
              'patched stored results and run through validate_calcs; every formula cell is '
              'altered in turn to a number beyond the tolerance, a text, an error and a logical')
     v.assumptions = ['1 <-> TRUE and 0 <-> FALSE alterations are excluded (python equality)',
-                     'tolerance is None or 2; altered numbers differ by 7']
+                     'tolerance is None, 0 or 2; altered numbers differ by 7',
+                     'an iterative workbook is one with calculation.iterate set (100 iterations, '
+                     'delta 0.001); the workbooks themselves have no circular reference']
     return v.finish()
